@@ -12,7 +12,7 @@ import gen_kern as G
 ID = "C09"
 LEAN_MODULES = ["CatiiProps.C09"]
 RULE = ("same exhaustive spaces as C08 (every empty/non-empty combination and exhaustion order up to 6/8 elements) plus "
-        "random pairs over eleven overlap patterns (incl. lengths 1-4 against 65-5000), unsorted and duplicate-carrying random arrays; each case runs the bounds-checked twin (IndexError per "
+        "random pairs over eleven overlap patterns (incl. lengths 1-4 against 65-5000; contiguous, embedded, strided and backwards views of buffers whose other words belong to neither operand, a stray word in the result being a read outside the inputs), unsorted and duplicate-carrying random arrays; each case runs the bounds-checked twin (IndexError per "
         "out-of-range source-level access) and the model (Err per checked access); non-trivial = at least one operand "
         "non-empty; distinct by input")
 ASSUMPTIONS = ["Cython lowers each source-level index expression to one access of that element; gcc preserves it",
@@ -26,9 +26,33 @@ def u32(xs):
     return np.array(xs, dtype=np.uint32)
 
 
-def twin(ck, fn, a, b):
+def tainted_view(xs, members, mode):
+    """xs as a non-contiguous (or embedded) view of a buffer whose other words are values that belong to neither
+    operand: if one of them shows up in the result, the kernel has read a word outside its input arrays"""
+    fill = []
+    v = 0xA5A50000
+    k = {"embedded": 1, "stride2": 2, "stride3": 3, "backwards": 1}[mode]
+    need = len(xs) * k + 2 * k + 2
+    while len(fill) < need:
+        if v not in members:
+            fill.append(v)
+        v += 1
+    buf = u32(fill)
+    if mode == "backwards":
+        buf[2:2 + len(xs)] = list(reversed(xs))
+        return buf[2:2 + len(xs)][::-1]
+    buf[k:k + len(xs) * k:k] = xs
+    return buf[k:k + len(xs) * k:k]
+
+
+def twin(ck, fn, a, b, view=None):
     try:
-        r = getattr(ck, FN2[fn])(u32(a), u32(b))
+        if view:
+            mem = set(a) | set(b)
+            A, B = tainted_view(a, mem, view), tainted_view(b, mem, view)
+        else:
+            A, B = u32(a), u32(b)
+        r = getattr(ck, FN2[fn])(A, B)
         return ("ok", [int(x) for x in np.asarray(r).tolist()])
     except IndexError as e:
         return ("oob", str(e))
@@ -40,9 +64,19 @@ def run(ctx):
     ck = core.load_kernels("checked")
     reqs, pend = [], []
 
-    def one(fn, a, b):
-        got = twin(ck, fn, a, b)
+    def one(fn, a, b, view=None):
+        got = twin(ck, fn, a, b, view)
         case = {"fn": fn, "l": a, "r": b}
+        if view:
+            case["view"] = view
+            ctx.hit("view:" + view)
+            if got[0] == "ok":
+                stray = [x for x in got[1] if x not in set(a) | set(b)]
+                if stray:
+                    ctx.oracle_fail("%s on %s views of %s, %s returned %s: %s is an element of neither operand but a word "
+                                    "of the buffer around them — the kernel read outside its input arrays" % (
+                                        FN2[fn], view, str(a)[:80], str(b)[:80], str(got[1])[:80], stray[:3]), case,
+                                    cls="C09-read-outside-operand")
         ctx.case(case if len(str(case)) < 300 else {"fn": fn, "len_l": len(a), "len_r": len(b)},
                  nontrivial=bool(a) or bool(b))
         ctx.hit("fn:" + fn)
@@ -64,11 +98,22 @@ def run(ctx):
                 one(fn, a, b)
     ctx.exhaustive.append("all %d^2 ordered pairs of subsets of %s x 3 kernels on the bounds-checked twin" % (
         len(subs), G.universe(n_u)))
+    # the same small operands as views of larger buffers (embedded, strided, backwards) whose other words belong to
+    # neither operand: a word of the buffer in the result is a read outside the input arrays
+    sub5 = list(G.subsets(G.universe(5)))
+    for view in ("stride2", "backwards", "embedded"):
+        for a in sub5:
+            for b in sub5:
+                for fn in FN2:
+                    one(fn, a, b, view)
+    ctx.exhaustive.append("all %d^2 ordered pairs of subsets of %s x 3 kernels as stride-2 / backwards / embedded views of "
+                          "buffers whose other words belong to neither operand" % (len(sub5), G.universe(5)))
     for _ in range(ctx.n(300)):
         kind, a, b = G.random_pair(ctx.rng, maxlen=ctx.rng.choice([8, 60, 300]))
         ctx.hit("pattern:" + kind)
+        view = ctx.rng.choice([None, "embedded", "stride2", "stride3", "backwards"])
         for fn in FN2:
-            one(fn, a, b)
+            one(fn, a, b, view)
     # unsorted / duplicate inputs: outside C08's precondition but inside C09's theorem
     for _ in range(ctx.n(300)):
         a = [ctx.rng.randrange(0, 12) for _ in range(ctx.rng.randrange(0, 9))]
@@ -96,12 +141,20 @@ ASAN_SCRIPT = r'''
 import sys, json, importlib.util, numpy as np
 spec = importlib.util.spec_from_file_location("asan_pkg.set_operations", sys.argv[1])
 m = importlib.util.module_from_spec(spec); spec.loader.exec_module(m)
-u = lambda xs: np.array(xs, dtype=np.uint32)
+def u(xs, view):
+    # exact-size heap buffers, so that a word read before or after one is a heap-buffer-overflow
+    if view == "backwards":
+        return np.array(list(reversed(xs)), dtype=np.uint32)[::-1]
+    if view == "stride2":
+        buf = np.zeros(max(2 * len(xs) - 1, 0), dtype=np.uint32)
+        buf[::2] = xs
+        return buf[::2]
+    return np.array(xs, dtype=np.uint32)
 n = 0
 for line in sys.stdin:
-    fn, a, b = json.loads(line)
+    fn, a, b, view = json.loads(line)
     sys.stderr.write("CASE %s\n" % line.strip()); sys.stderr.flush()
-    getattr(m, fn)(u(a), u(b)); n += 1
+    getattr(m, fn)(u(a, view), u(b, view)); n += 1
 print("DONE", n)
 '''
 
@@ -117,7 +170,8 @@ def asan(ctx, subs):
     for a in small:
         for b in small:
             for fn in FN2.values():
-                lines.append(json.dumps([fn, a, b]))
+                for view in (None, "backwards", "stride2"):
+                    lines.append(json.dumps([fn, a, b, view]))
     env = dict(os.environ, LD_PRELOAD=lib, ASAN_OPTIONS="detect_leaks=0:halt_on_error=1")
     try:
         p = subprocess.run([core.PY, "-c", ASAN_SCRIPT, so], input="\n".join(lines) + "\n", capture_output=True,
@@ -127,17 +181,19 @@ def asan(ctx, subs):
     ctx.hit("asan_cases", len(lines))
     if "AddressSanitizer" in p.stderr:
         last = [l for l in p.stderr.split("\n") if l.startswith("CASE ")][-1][5:]
-        fn, a, b = json.loads(last)
+        fn, a, b, view = json.loads(last)
         rep = p.stderr[p.stderr.index("AddressSanitizer") - 10:][:600]
         short = {v: k for k, v in FN2.items()}[fn]
-        ctx.oracle_fail("AddressSanitizer report in %s(%s, %s): %s" % (fn, a, b, rep), {"fn": short, "l": a, "r": b},
+        ctx.oracle_fail("AddressSanitizer report in %s(%s, %s)%s: %s" % (fn, a, b, " on %s views" % view if view else "", rep),
+                        dict({"fn": short, "l": a, "r": b}, **({"view": view} if view else {})),
                         cls="C09-oob-intersect-one-empty" if (short == "inter" and (not a) != (not b)) else "C09-oob")
     elif "DONE" not in p.stdout:
         raise core.Infra("ASan run failed: " + p.stderr[-500:])
-    ctx.exhaustive.append("ASan build of the unmodified .pyx: %d kernel calls, no report" % len(lines))
+    ctx.exhaustive.append("ASan build of the unmodified .pyx: %d kernel calls (contiguous, backwards and stride-2 operands in exact-size buffers), no report" % len(lines))
 
 
 def replay(ctx, rep):
     ck = core.load_kernels("checked")
     c = rep["case"]
-    return twin(ck, c["fn"], c["l"], c["r"])[0] == "ok"
+    got = twin(ck, c["fn"], c["l"], c["r"], c.get("view"))
+    return got[0] == "ok" and all(x in set(c["l"]) | set(c["r"]) for x in got[1])
